@@ -298,7 +298,8 @@ impl PowerState {
     }
 
     pub fn pending_counts(&self) -> (Vec<usize>, usize) {
-        (self.pending.values().map(|v| v.len()).collect(), self.pending_dir.len())
+        // one entry per inode in the order `after_power_loss` walks them (all known inodes)
+        (self.durable.keys().map(|ino| self.pending.get(ino).map_or(0, |v| v.len())).collect(), self.pending_dir.len())
     }
 
     pub fn has_unsynced(&self) -> bool {
